@@ -17,6 +17,7 @@ THEOREMS = [
     "GoaktVerif.C17.C17_children_first",
     "GoaktVerif.C17.C17_some_order",
     "GoaktVerif.C17.C17_grain_pill_deactivates",
+    "GoaktVerif.C17.C17_grain_drops_after_deactivation",
     "GoaktVerif.C17.C17_send_after_stop_rejected",
     "GoaktVerif.C17.C17_handler_outlives_stop",
 ]
@@ -26,7 +27,7 @@ TIMEOUT = 1500
 ORACLE_NEEDS_JUDGE = True
 MANIFEST = {
     "level_text": "Kernel-checked theorems: for EVERY actor forest and EVERY interleaving of the concurrent child shutdowns (Model.C17.Stops: freeChildren tears the children down concurrently, then PostStop) the teardown order is a permutation of the reached actors (C17_perm), contains every running actor exactly once and no stopped one (C17_exactly_once, distinct actors, stopped actors have no running descendants), and every actor comes after all actors reached inside its subtree (C17_children_first); a PoisonPill dequeued by an active grain deactivates it once inside that turn (C17_grain_pill_deactivates, with C31_inturn: at most once on every schedule); a Tell whose flag test runs after the stop is rejected and enqueues nothing (C17_send_after_stop_rejected). The clause `after Stop returns no user handler runs` is refuted by the counterexample shared with C06 (C17_handler_outlives_stop) and replayed on the real system. Tie: random trees and grain populations with traffic in flight in a real actor system; the model predicts which actors/grains are torn down and every action result, and Spec.C17 judges exactly-once, children-before-parents (logical clock), grain deactivation and quietness after Stop on the recorded history.",
-    "level_note": "Partial: `no user handler runs after Stop returns` is false (C17-F1 = C06-F1 seen through ActorSystem.Stop; C17-F2 = C31-F2). The per-actor stop is Model.C06's critical section and is not re-modelled here; the teardown model is at PostStop granularity (which actors, in what order) and takes the running flags at the moment Stop reaches each actor as given; system actors of the chain (singleton manager, relocator, dead letter, death watch, topic actor, noSender, guardians) are exercised by the real run but only user actors and grains are judged. A grain whose handler is blocked for longer than the shutdown timeout is abandoned by design (poisonAllGrains returns ctx.Err()) and is not generated.",
+    "level_note": "Partial: `no user handler runs after Stop returns` is false (C17-F1 = C06-F1 seen through ActorSystem.Stop; C17-F2 = C31-F2 was fixed by 6dc1e0c; C17-F3: a send racing Stop can activate a grain that escapes poisonAllGrains). The per-actor stop is Model.C06's critical section and is not re-modelled here; the teardown model is at PostStop granularity (which actors, in what order) and takes the running flags at the moment Stop reaches each actor as given; system actors of the chain (singleton manager, relocator, dead letter, death watch, topic actor, noSender, guardians) are exercised by the real run but only user actors and grains are judged. A grain whose handler is blocked for longer than the shutdown timeout is abandoned by design (poisonAllGrains returns ctx.Err()) and is not generated.",
     "technique": "Lean 4 structural induction over forests/interleavings + scenario differential and spec oracle on recorded histories of the real actor system",
 }
 TRUSTED = [
@@ -183,8 +184,8 @@ def oracle(case, impl, judge):
 
 def classify(case, impl, why):
     """signature: every item of the verdict must be `in:A<k>` (a user actor's handler that began before
-    Stop returned is still inside Receive: C06-F1 through the shutdown chain) or `recv-after-dea:G<k>` /
-    `new:G<k>` (a grain handles queued messages after the shutdown pill deactivated it: C31-F2)"""
+    Stop returned is still inside Receive: C06-F1 through the shutdown chain).  Grain items (`recv-after-dea:G<k>`, `new:G<k>`) were C17-F2,
+    fixed by 6dc1e0c, and are violations again."""
     if not why or not why.startswith("bad "):
         return None
     found = []
@@ -194,10 +195,8 @@ def classify(case, impl, why):
             # still inside Receive when Stop returned, or entered Receive after it (the worker had
             # already picked the behaviour before reset() cleared it): both are C06-F1 (clauses 4 / 3)
             found.append("C17-F1")
-        elif re.fullmatch(r"(recv-after-dea|new):G\d+", tok):
-            found.append("C17-F2")
-        elif re.fullmatch(r"in:G\d+", tok) and ("recv-after-dea:" + tok[3:]) in toks:
-            found.append("C17-F2")
+        elif re.fullmatch(r"leak:G\d+", tok):
+            found.append("C17-F3")
         else:
             return None
     return found[0] if found else None
